@@ -736,6 +736,7 @@ func showOp(op Op) string {
 }
 
 func (e *engine) Execute(raw json.RawMessage) (vd harness.Verdict) {
+	slip.VerifResetPrinter() // lazily grown process-global printer state: the same for every case
 	var c Case
 	if err := json.Unmarshal(raw, &c); err != nil {
 		panic(err)
